@@ -14,7 +14,7 @@ DEAD_SHARE_MAX = 0.8      # picks of the always-failing backend / picks of the l
 MAX_GAP_MS = 5000         # longest time a connection stays unpicked under 1 kHz picks
 
 # order in which violated clauses name the disagreement
-CLAUSES = ["pick-not-ready", "done-not-ready", "succ-range", "succ-direction", "succ-progress", "inflight",
+CLAUSES = ["pick-not-ready", "done-not-ready", "succ-range", "succ-direction", "succ-progress", "fail-bound", "inflight",
            "lag-range", "starved-2conn", "pick-effect", "done-effect", "time", "unknown-code"]
 
 META = dict(
@@ -24,7 +24,7 @@ META = dict(
          "every operation it logs [in-flight, score, latency estimate] of every connection. TLC (spec/P2CTrace.tla, all "
          "traces concatenated, -workers 1) checks that every logged step is a step of spec/P2C.tla: the pick is a ready "
          "connection, in-flight = picks - completions, the score stays in [0,1000], moves towards its target and at "
-         "least as fast as the decay bound, the estimate stays within the observed latencies, and with two connections "
+         "least as fast as the decay bound, a backend whose calls all fail (>= 1 ms apart) is at or below 500 after at most 20000 completions (streak traces on n = 1 and n = 3), the estimate stays within the observed latencies, and with two connections "
          "none is left unpicked beyond the force-pick period under sustained picks. P2C.tla itself is model-checked "
          "(invariants, UnhealthyBound: 8 failing completions >= 1 s apart make a backend unhealthy, Recover, NoStarve2). "
          "A concurrent variant (8 goroutines) logs the quiescent end state, judged by the same invariants; long 1 kHz "
@@ -47,8 +47,9 @@ FINISH = dict(rule="every recorded trace (seeded random Pick/Done sequences for 
                    "connections are flagged only beyond DESIGN.md section 5 margins")
 
 MCK = dict(Conns="1..2", MCReady="1..2", MCCodes='{"nil","Unavailable"}', MCLats="{1000,50000}", MCSteps="{0,600,1000}",
-           RunLen=8)
-INVS = ["TypeOK", "InflEq", "SuccRange", "LagRange", "OnlyReady", "UnhealthyBound", "Recover"]
+           RunLen=8, FailB=20000)
+FAILB = 20000             # unacceptable completions (>= 1 ms apart, none acceptable between) after which score <= 500
+INVS = ["TypeOK", "InflEq", "SuccRange", "LagRange", "OnlyReady", "UnhealthyBound", "Recover", "FailBound"]
 
 
 def mc(ctx):
@@ -64,6 +65,16 @@ def mc(ctx):
                      name="P2C-reach-" + nm, workers=1, timeout=600, allow_violation=True, heap="2g")
         if r2.violated != "NotReached":
             raise core.Infra("vacuous model: a run of RunLen %s completions is not reachable within the bound" % nm)
+    # (a') closely spaced failing completions: the fail-bound clause with a small bound, reached
+    K4 = dict(K, MCSteps="{0,1}", MCCodes='{"nil","Unavailable"}', FailB=3)
+    B4 = "picks[1] <= 5 /\\ infl[1] <= 2"
+    cfg = core.render_cfg(spec="Spec", constants=K4, invariants=INVS, constraints=["Bound"], view="core")
+    ctx.tlc("P2C", cfg, constants=K4, defs=dict(Bound=B4), name="P2C-mc4", workers=4, timeout=900, heap="2g")
+    cfg2 = core.render_cfg(spec="Spec", constants=K4, invariants=["NotReached"], constraints=["Bound"], view="core")
+    r2 = ctx.tlc("P2C", cfg2, constants=K4, defs=dict(Bound=B4, NotReached="\\A c \\in Conns : failrun[c] < FailB"),
+                 name="P2C-reach-fail", workers=1, timeout=600, allow_violation=True, heap="2g")
+    if r2.violated != "NotReached":
+        raise core.Infra("vacuous model: FailB failing completions are not reachable within the bound")
     # (b) two connections: force-pick rule, interleavings, close and far completions
     K = dict(MCK, MCLats="{1000}")
     cfg = core.render_cfg(spec="Spec", constants=K, invariants=INVS, properties=["NoStarve2"], constraints=["Bound"], view="core")
@@ -96,8 +107,8 @@ def validate(ctx, trace_path, name, mode, extra_env):
     lines = open(trace_path).read().splitlines()
     if not lines:
         raise core.Infra("empty trace %s" % trace_path)
-    K = dict(MCK, Conns="1..%d" % NMAX, MCReady="{}")
-    cfg = core.render_cfg(spec="TSpec", constants=K, invariants=["InflEq", "SuccRange", "LagRange", "OnlyReady"],
+    K = dict(MCK, Conns="1..%d" % NMAX, MCReady="{}", FailB=FAILB)
+    cfg = core.render_cfg(spec="TSpec", constants=K, invariants=["InflEq", "SuccRange", "LagRange", "OnlyReady", "FailBound"],
                           postcondition="Post")
     r = ctx.tlc("P2CTrace", cfg, constants=K, name=name, workers=1, timeout=1500, files={"c14trace.ndjson": trace_path},
                 heap="3g")
@@ -126,7 +137,7 @@ def validate(ctx, trace_path, name, mode, extra_env):
             head.get("id"), head.get("n"), mode, idx - start, json.dumps(ev, sort_keys=True), why)
         if prev is not None:
             msg += "; state before: infl=%s succ=%s lag=%s" % (prev.get("infl"), prev.get("succ"), prev.get("lag"))
-        case = dict(mode=mode, trace=head.get("id"), seed=ctx.seed, env=extra_env, events=[json.loads(x) for x in lines[start:idx + 1]])
+        case = dict(mode=mode, trace=head.get("id"), seed=ctx.seed, env=extra_env, events=[json.loads(x) for x in lines[max(start, idx - 50):idx + 1]])  # tail of the prefix; replay regenerates the trace
         ctx.disagree("C14:" + why[0], msg, case=json.dumps(case), step=idx - start, source=name)
     return res
 
@@ -174,6 +185,11 @@ def run(ctx):
     cp = os.path.join(ctx.build, "conc.ndjson")
     drive(ctx, binp, "conc", cp, "conc", **conc)
     validate(ctx, cp, "trace-conc", "conc", conc)
+    # one backend failing every call, completions 1-5 ms apart: unhealthy after a bounded number
+    st = dict(VERIF_C14_STREAK=FAILB + 2000)
+    sp = os.path.join(ctx.build, "streak.ndjson")
+    drive(ctx, binp, "streak", sp, "streak", **st)
+    validate(ctx, sp, "trace-streak", "streak", st)
     if not ctx.quick:
         rb = ctx.go_build(PKG, OVERLAY, name="c14drv-race", race=True)
         for gmp in (2, 8):
